@@ -367,13 +367,17 @@ def run(ck):
     try:
         t = gate_tables.extract(REPO)
         ck.write_gen("GateTables", gate_tables.emit(t))
+        tables_ok = True
     except TranslateError as e:
+        # the tie to the source is broken: report it, then go on searching the implementation for a
+        # concrete failing input with the oracles alone (no model evaluation without the tables)
         ck.violation("C11/translator/gate_tables", "translator no longer recognises the source: %s" % e,
                      {"kind": "translator", "error": str(e)}, found_input=False)
-        return
-    res = ck.prove()
-    if not res.ok:
-        ck.proof_violation(res)
+        tables_ok = False
+    if tables_ok:
+        res = ck.prove()
+        if not res.ok:
+            ck.proof_violation(res)
     check_inventory(ck)
 
     tangelo_ok = True
@@ -412,7 +416,7 @@ def run(ck):
             continue
         impl_runs.append((h, " ## ".join(steps)))
         exprs.append("run %s" % coq_list(mops))
-    model = ck.coq_eval("hist", PREAMBLE, exprs, shard=40)
+    model = ck.coq_eval("hist", PREAMBLE, exprs, shard=40) if tables_ok else []
     for (h, a), b in zip(impl_runs, model):
         if a != b:
             sa, sb = a.split(" ## "), b.split(" ## ")
@@ -423,7 +427,8 @@ def run(ck):
                              k, kind, sa[k][:600] if k < len(sa) else None, sb[k][:600] if k < len(sb) else None),
                          {"kind": "history", "ops": json.loads(json.dumps(h, default=str)), "step": k},
                          found_input=False)
-    run_malformed(ck, 900 if ck.tier == "quick" else 8000)
+    if tables_ok:
+        run_malformed(ck, 900 if ck.tier == "quick" else 8000)
     if ck.notes.get("new_writer_sites") and not any(v["found_input"] for v in ck.violations):
         ck.violation("C11/inventory/new-writer-site", "new write through a parameter: %s" % ck.notes["new_writer_sites"],
                      {"kind": "inventory", "sites": ck.notes["new_writer_sites"]}, found_input=False)
